@@ -234,6 +234,29 @@ func verifAtomicCloseReturned(h *vHandler, n *int) {
 	*n = *n + 1
 }
 
+// Scenario E: the inputs arrive in lifecycle order and the stop condition fires at any position of that
+// sequence, with the step either still where the previous input left it or as far as it can get
+// (a stop that lands in the deploy, enabling, starting or running stage); then the step is left alone.
+func VerifH_C04_stop_anywhere() {
+	e := verifNewEnv(true)
+	r := verifStart(e)
+	given := map[string]bool{}
+	at := verifrt.Choice("stopAt", 4)
+	for a := 0; a <= 3; a++ {
+		if a == at {
+			if verifrt.Choice("step-runs-first", 2) == 1 {
+				verifrt.Settle()
+			}
+			verifAct(e, r, given, 3)
+		}
+		if a < 3 {
+			verifAct(e, r, given, a)
+		}
+	}
+	verifrt.Settle()
+	verifEpilogue(e, r, false)
+}
+
 // C05: the temporary deployment made to read a plugin's schema is closed on every return path.
 func VerifH_C05_load_schema() {
 	e := verifNewEnv(true)
